@@ -19,7 +19,8 @@ const double INF = std::numeric_limits<double>::infinity();
 struct Input {
   int n = 0;
   std::vector<std::vector<double>> D;
-  std::vector<std::vector<long>> pts;  // integer coordinates when the input is a point cloud, else empty
+  std::vector<std::vector<long>> pts;  // when the input is a point cloud: numerators of the coordinates, else empty
+  long den = 1;                        // the coordinates are pts / den (den a power of two: integer or dyadic non-integer points)
   std::string gen;
   bool complete() const {
     for (int i = 0; i < n; ++i) for (int j = 0; j < i; ++j) if (D[i][j] == INF) return false;
@@ -34,6 +35,7 @@ struct Input {
   std::string show() const {
     std::ostringstream o; o.precision(17);
     o << "gen=" << gen << " n=" << n;
+    if (!pts.empty() && den != 1) o << " coordinates=pts/" << den;
     if (!pts.empty()) { o << " pts="; for (auto& p : pts) { o << "("; for (size_t k = 0; k < p.size(); ++k) { if (k) o << ","; o << p[k]; } o << ")"; } }
     o << " lower=";
     for (int i = 1; i < n; ++i) { o << "["; for (int j = 0; j < i; ++j) { if (j) o << ","; o << D[i][j]; } o << "]"; }
@@ -42,7 +44,7 @@ struct Input {
 };
 
 inline void init(Input& in, int n, const std::string& gen) {
-  in.n = n; in.gen = gen; in.pts.clear();
+  in.n = n; in.gen = gen; in.pts.clear(); in.den = 1;
   in.D.assign(n, std::vector<double>(n, 0.0));
 }
 inline void set(Input& in, int i, int j, double v) { in.D[i][j] = in.D[j][i] = v; }
@@ -57,11 +59,13 @@ inline void permute(Input& in, vh::Rng& r) {
   in = out;
 }
 
-// Euclidean distance as Euclidean_distance_matrix<T> must compute it: the sum of squares of small integers is exact in
-// T, and IEEE sqrt is correctly rounded, so this is *the* value of type T, whoever computes it.
-template <class T> double euclid(const std::vector<long>& a, const std::vector<long>& b) {
+// Euclidean distance as Euclidean_distance_matrix<T> must compute it.  The coordinates are a / den with small integer
+// numerators and den a power of two: every difference, square and partial sum is a multiple of 1/den^2 below 2^24/den^2,
+// hence exact in T in whatever order it is accumulated, and IEEE sqrt is correctly rounded, so this is *the* value of
+// type T, whoever computes it.
+template <class T> double euclid(const std::vector<long>& a, const std::vector<long>& b, long den = 1) {
   long s = 0; for (size_t k = 0; k < a.size(); ++k) s += (a[k] - b[k]) * (a[k] - b[k]);
-  return (double)std::sqrt((T)s);
+  return (double)std::sqrt((T)s / (T)(den * den));
 }
 
 // ---------------------------------------------------------------------------------------------- small generators
@@ -71,24 +75,30 @@ template <class T> void gen_cloud(Input& in, vh::Rng& r, int n) {
   long side = 2 + (long)r.below(5);
   bool allow_dup = r.chance(1, 4);
   if (allow_dup) in.gen = "cloud_dup";
+  // half of the clouds have non-integer (dyadic) coordinates: multiples of 1/2, 1/8 or 1/16 in the same box
+  const long dens[] = {2, 8, 16};
+  const long den = r.chance(1, 2) ? dens[r.below(3)] : 1;
   if (n >= 4 && r.chance(1, 4)) {
     // vertices of a cross-polytope (+- s along each axis, shifted to non-negative coordinates): spheres, so finite
     // intervals in dimension d-1 >= 1; the remaining points are random
     in.gen = "cloud_octa";
     dim = 2 + (int)r.below((uint64_t)std::min(3, n / 2 - 1));
-    long s = 1 + (long)r.below(3);
-    side = 2 * s;
-    for (int a = 0; a < dim; ++a) for (int sg = -1; sg <= 1; sg += 2) { std::vector<long> p(dim, s); p[a] += sg * s; in.pts.push_back(p); }
+    // half-width sn/den: 1, 2 or 3 for integer clouds, any multiple of 1/den in (0,3] otherwise (e.g. 3/2, 5/16)
+    long sn = den == 1 ? 1 + (long)r.below(3) : 1 + (long)r.below((uint64_t)(3 * den));
+    side = (2 * sn + den - 1) / den;
+    for (int a = 0; a < dim; ++a) for (int sg = -1; sg <= 1; sg += 2) { std::vector<long> p(dim, sn); p[a] += sg * sn; in.pts.push_back(p); }
   }
+  in.den = den;
   for (int i = (int)in.pts.size(); i < n; ++i) {
     for (int tries = 0; tries < 50; ++tries) {
-      std::vector<long> p(dim); for (auto& x : p) x = r.range(0, side);
+      std::vector<long> p(dim); for (auto& x : p) x = r.range(0, side * den);
+      if (allow_dup && den != 1 && !in.pts.empty() && r.chance(1, 4)) p = in.pts[r.below(in.pts.size())];   // a fine grid seldom repeats a point by itself
       bool dup = false; for (auto& q : in.pts) if (q == p) dup = true;
       if (!dup || allow_dup || tries == 49) { in.pts.push_back(p); break; }
     }
   }
   r.shuffle(in.pts);
-  for (int i = 0; i < n; ++i) for (int j = 0; j < i; ++j) set(in, i, j, euclid<T>(in.pts[i], in.pts[j]));
+  for (int i = 0; i < n; ++i) for (int j = 0; j < i; ++j) set(in, i, j, euclid<T>(in.pts[i], in.pts[j], in.den));
 }
 
 inline void gen_grid6(Input& in, vh::Rng& r, int n) {
@@ -214,7 +224,43 @@ struct Expectation {
   bool too_big = false;
   bool has_finite_high = false;   // a finite positive-length interval in dimension >= 1
   int top_clique = 0;
+  bool fast_checked = false, fast_ok = true;   // simplicial_diagram_fast cross-checked against oracle::simplicial_diagram
 };
+
+// The same diagram as oracle::simplicial_diagram (filtration order = (value, dimension, lexicographic), boundary sign
+// (-1)^k for deleting the k-th vertex, reduction by oracle::reduce), with the bookkeeping done on sorted vectors instead
+// of std::map look-ups inside the sort: needed for the complexes with 10^4-10^5 simplices (a 14-16-clique).  Complexes
+// below kFastCheckBelow simplices that take this path are also run through oracle::simplicial_diagram and compared.
+inline Diagram simplicial_diagram_fast(const std::map<oracle::Simplex, double>& cx, long p) {
+  typedef std::pair<const oracle::Simplex, double> Entry;
+  std::vector<const Entry*> lex; lex.reserve(cx.size());          // lexicographic order (the order of the map)
+  for (auto& kv : cx) lex.push_back(&kv);
+  std::vector<int> order(lex.size());                             // filtration order, as indices into lex
+  for (size_t i = 0; i < order.size(); ++i) order[i] = (int)i;
+  std::sort(order.begin(), order.end(), [&](int a, int b) {
+    if (lex[a]->second != lex[b]->second) return lex[a]->second < lex[b]->second;
+    if (lex[a]->first.size() != lex[b]->first.size()) return lex[a]->first.size() < lex[b]->first.size();
+    return a < b;
+  });
+  std::vector<int> pos(lex.size());                               // lex index -> position in the filtration
+  for (size_t q = 0; q < order.size(); ++q) pos[order[q]] = (int)q;
+  std::vector<oracle::Cell> cells(lex.size());
+  std::vector<double> vals(lex.size());
+  oracle::Simplex f;
+  for (size_t q = 0; q < order.size(); ++q) {
+    const oracle::Simplex& s = lex[order[q]]->first;
+    vals[q] = lex[order[q]]->second;
+    cells[q].dim = (int)s.size() - 1;
+    if (s.size() > 1)
+      for (size_t k = 0; k < s.size(); ++k) {
+        f.clear(); for (size_t t = 0; t < s.size(); ++t) if (t != k) f.push_back(s[t]);
+        auto it = std::lower_bound(lex.begin(), lex.end(), f, [](const Entry* e, const oracle::Simplex& key) { return e->first < key; });
+        cells[q].bdry.emplace_back((it == lex.end() || (*it)->first != f) ? -1 : pos[it - lex.begin()], (k % 2 == 0) ? 1 : -1);
+      }
+  }
+  return oracle::diagram(oracle::reduce(cells, p).bars, vals, true);
+}
+const size_t kFastAbove = 9000, kFastCheckBelow = 20000;
 
 // persistence of the flag complex of the threshold graph, dimensions 0..dim_max (uses simplices up to dim_max+1)
 inline Expectation expect(const oracle::WGraph& g, int dim_max, long p, size_t cap) {
@@ -225,7 +271,11 @@ inline Expectation expect(const oracle::WGraph& g, int dim_max, long p, size_t c
   e.complex_size = cx.size();
   if (cx.size() > cap) { e.too_big = true; return e; }
   for (auto& kv : cx) e.top_clique = std::max(e.top_clique, (int)kv.first.size());
-  Diagram all = oracle::simplicial_diagram(cx, p, true);
+  Diagram all;
+  if (cx.size() > kFastAbove) {
+    all = simplicial_diagram_fast(cx, p);
+    if (cx.size() < kFastCheckBelow) { e.fast_checked = true; e.fast_ok = (all == oracle::simplicial_diagram(cx, p, true)); }
+  } else all = oracle::simplicial_diagram(cx, p, true);
   for (auto& iv : all) if (iv.dim <= dim_max) {
     e.dgm.push_back(iv);
     if (iv.dim >= 1 && iv.death != INF) e.has_finite_high = true;
@@ -256,8 +306,22 @@ inline std::string diff_class(const Diagram& got, const Diagram& want) {
 inline std::string pclass(long p) { return p == 2 ? "2" : p <= 13 ? "odd_small" : "big"; }
 
 const long kPrimes[] = {2, 3, 5, 7, 11, 13, 32749, 65521};
+inline const std::vector<long>& all_primes() {   // every prime below 65536 (the moduli the engine accepts)
+  static const std::vector<long> ps = [] {
+    std::vector<char> comp(65536, 0); std::vector<long> v;
+    for (long q = 2; q < 65536; ++q) { if (comp[q]) continue; v.push_back(q); for (long m = q * q; m < 65536; m += q) comp[m] = 1; }
+    return v;
+  }();
+  return ps;
+}
+inline bool listed_prime(long p) { for (long q : kPrimes) if (q == p) return true; return false; }
+// counter name of a modulus: the eight listed ones by value, the others by size class
+inline std::string pname(long p) { return listed_prime(p) ? vh::str(p) : p < 256 ? "other_lt256" : p < 32768 ? "other_lt32768" : "other_ge32768"; }
 inline long pick_prime(vh::Rng& r) {
-  // Z_2 and Z_3 get more weight (hard-coded Z_2 path / smallest coefficient storage), every prime is reached
+  // ~30 %: any prime below 65536 (half of those uniform over the 6542 primes, half among the 60 smallest, so that
+  // small coefficient fields other than the listed ones are frequent too)
+  if (r.chance(3, 10)) { const std::vector<long>& ps = all_primes(); return r.chance(1, 2) ? ps[r.below(ps.size())] : ps[r.below(60)]; }
+  // Z_2 and Z_3 get more weight (hard-coded Z_2 path / smallest coefficient storage), every listed prime is reached
   unsigned k = (unsigned)r.below(12);
   if (k < 3) return 2;
   if (k < 5) return 3;
@@ -358,6 +422,53 @@ template <class T> BigInput gen_big(vh::Rng& r, bool thorough) {
     b.thr = 0.5 * (double)(3 + r.below(4));
     permute(in, r);
   }
+  return b;
+}
+
+// ---------------------------------------------------------------------------------------------- wide generators
+// 126-131 vertices (the only sizes at which dim_max can reach 125 = the edge of the engine's 8-bit dimension type while
+// C(n, n/2) still fits the 128-bit index), very sparse: cycles with chords (H_1), an octahedron (H_2) and a 5-7-clique on
+// the highest labels, a few random edges.  The work stays tiny whatever dim_max is.  One input in six has 257-400
+// vertices instead: there n-2 does not even fit 8 bits (it wraps to a small non-negative number), no encoding can number
+// the simplices of dimension dim_max >= 125, and the only acceptable outcome besides the full barcode is the refusal.
+inline BigInput gen_dimwide(vh::Rng& r) {
+  BigInput b; Input& in = b.in;
+  const bool wider = r.chance(1, 6);
+  int n = wider ? 257 + (int)r.below(144) : 126 + (int)r.below(6);
+  init(in, n, wider ? "dimwide_n257plus" : "dimwide"); all_missing(in);
+  int ncyc = 1 + (int)r.below(3), at = 0;
+  for (int k = 0; k < ncyc; ++k) {
+    int len = 4 + (int)r.below(17);
+    for (int i = 0; i < len; ++i) set(in, at + i, at + (i + 1) % len, 0.5 * (double)(1 + r.below(4)));
+    int chords = (int)r.below(3);
+    for (int q = 0; q < chords; ++q) { int a = at + (int)r.below(len), c2 = at + (int)r.below(len); if (a != c2 && in.D[a][c2] == INF) set(in, a, c2, 0.5 * (double)(3 + r.below(4))); }
+    at += len;
+  }
+  int cs = 5 + (int)r.below(3);
+  int o = n - cs - 6 - (int)r.below(4);                      // octahedron: antipodal pairs (2k, 2k+1) far apart
+  for (int a = 0; a < 6; ++a) for (int c2 = 0; c2 < a; ++c2) set(in, o + a, o + c2, a / 2 == c2 / 2 ? 3.0 : 1.0 + 0.5 * (double)r.below(2));
+  for (int i = n - cs; i < n; ++i) for (int j = n - cs; j < i; ++j) set(in, i, j, 0.5 * (double)(1 + r.below(4)));
+  int extra = n / 4 + (int)r.below((uint64_t)n);
+  for (int k = 0; k < extra; ++k) { int a = (int)r.below(n), c2 = (int)r.below(n); if (a != c2 && in.D[a][c2] == INF) set(in, a, c2, 0.5 * (double)(1 + r.below(6))); }
+  b.thr = 0.5 * (double)(4 + r.below(3));                    // 2, 2.5 (the H_2 class is essential) or 3 (it dies)
+  if (r.chance(1, 3)) { permute(in, r); in.gen += "_permuted"; }
+  return b;
+}
+
+// 100-128 vertices, a clique of 14-16 vertices on the highest labels (2-4 distinct values), a few sparse edges: simplices
+// with up to 16 vertices whose combinatorial-number-system index exceeds 2^64 and whose bit-field index reaches 2^112
+inline BigInput gen_topclique(vh::Rng& r) {
+  BigInput b; Input& in = b.in;
+  int n = r.chance(7, 10) ? 120 + (int)r.below(9) : 100 + (int)r.below(20);
+  init(in, n, "topclique"); all_missing(in);
+  unsigned k = (unsigned)r.below(10);
+  int cs = k < 5 ? 16 : k < 8 ? 15 : 14;
+  unsigned levels = 2 + (unsigned)r.below(3);
+  for (int i = n - cs; i < n; ++i) for (int j = n - cs; j < i; ++j) set(in, i, j, 1.0 + 0.5 * (double)r.below(levels));
+  int extra = n / 2 + (int)r.below((uint64_t)n);
+  for (int q = 0; q < extra; ++q) { int a = (int)r.below(n), c2 = (int)r.below(n); if (a != c2 && in.D[a][c2] == INF) set(in, a, c2, 1.0 + 0.5 * (double)r.below(4)); }
+  b.thr = 2.5;
+  b.hint_dim = cs - 2 + (int)r.below(2);
   return b;
 }
 
